@@ -51,11 +51,6 @@ pub(super) async fn receive_batch_multipart(
         boundary,
         Constraints::new().size_limit({
             let mut limit = SizeLimit::new();
-            if let (Some(max_file_size), Some(max_num_files)) =
-                (opts.max_file_size, opts.max_num_files)
-            {
-                limit = limit.whole_stream((max_file_size * max_num_files) as u64);
-            }
             if let Some(max_file_size) = opts.max_file_size {
                 limit = limit.per_field(max_file_size as u64);
             }
@@ -94,6 +89,12 @@ pub(super) async fn receive_batch_multipart(
                 if let Some(name) = field.name().map(ToString::to_string)
                     && let Some(filename) = field.file_name().map(ToString::to_string)
                 {
+                    if let Some(max_num_files) = opts.max_num_files
+                        && files.len() >= max_num_files
+                    {
+                        return Err(ParseRequestError::PayloadTooLarge);
+                    }
+
                     let content_type = field.content_type().map(ToString::to_string);
 
                     #[cfg(feature = "tempfile")]
